@@ -529,3 +529,47 @@ func driveBlind(s *shardSet, rng *rand.Rand, thorough bool) {
 		}
 	}
 }
+
+// driveRaggedAppend: buffer appends for every small combination of channel count, destination length in SAMPLES
+// (so the last frame may be partly filled), spare capacity and source length in samples - the amount by which a
+// growing append must extend the storage depends on all of them, and Go's allocator often hides a wrong amount by
+// rounding capacities up, differently for every element size.
+func driveRaggedAppend(s *shardSet, rng *rand.Rand, thorough bool) {
+	types := []string{"int8", "int64", "int32", "float32", "uint16"} // (quick: the narrowest and the widest in full, the others sampled)
+	maxCh := 5
+	if thorough {
+		types = BuiltinTypes
+		maxCh = 8
+	}
+	for _, ty := range types {
+		kt := KindOf(ty)
+		for ch := 2; ch <= maxCh; ch++ {
+			for dlen := 0; dlen <= 2*ch+1; dlen++ {
+				for spare := 0; spare <= 1; spare++ {
+					for slen := 1; slen <= 2*ch+2; slen++ {
+						if !thorough && ty != "int8" && ty != "int64" && rng.Intn(4) != 0 {
+							continue
+						}
+						w := s.Next()
+						w.Reset()
+						capFrames := (dlen+ch-1)/ch + spare
+						w.Alloc(ty, ch, dlen/ch, capFrames)
+						w.Write(0, kt, w.stamps(ch*(dlen/ch)))
+						for i := 0; i < dlen%ch && w.Views[0].Len() < w.Views[0].Cap(); i++ {
+							w.AppendSample(0, w.NextStamp())
+						}
+						w.Alloc(ty, ch, slen/ch, (slen+ch-1)/ch)
+						w.Write(1, kt, w.stamps(ch*(slen/ch)))
+						for i := 0; i < slen%ch; i++ {
+							w.AppendSample(1, w.NextStamp())
+						}
+						w.Append(0, 1)
+						w.AppendSample(0, w.NextStamp())
+						w.Slice(0, 0, w.Views[0].Capacity())
+						w.AppendSample(0, w.NextStamp())
+					}
+				}
+			}
+		}
+	}
+}
